@@ -82,6 +82,9 @@ type editInfo struct {
 type expectation struct {
 	Rejected     bool     `json:"rejected"`      // the edited input must be diagnosed (always true)
 	ValidOutputs []string `json:"valid_outputs"` // base names of the files the unedited run must write
+	// the unedited program has an input shape on which thriftgo is known to fail
+	// (listed findings of C05 / C06); otherwise a Go trace on it is a violation
+	ValidKnownReject bool `json:"valid_known_reject,omitempty"`
 }
 
 // c04Case is everything the judge needs.  "{out}" in an argument list stands
@@ -181,7 +184,10 @@ func judge(c c04Case) (string, error) {
 		if os.Getenv("VERIF_SURVEY") != "" {
 			fmt.Fprintf(os.Stderr, "REJECTED %s\n", vt.Truncate(strings.ReplaceAll(lastNonWarn(r.Output), "\n", " | "), 400))
 		}
-		if crashMark(r.Output) != "" {
+		if m := crashMark(r.Output); m != "" {
+			if !c.Expect.ValidKnownReject {
+				return "", fmt.Errorf("valid program: %s (exit %d) dies with a Go trace (%q) although the program has none of the input shapes of the listed C05/C06 findings:\n%s", cmd, r.Exit, m, vt.Truncate(r.Output, 1500))
+			}
 			return stRejectedTrace, nil
 		}
 		return stRejected, nil
@@ -225,12 +231,13 @@ type env struct {
 	reach []*idl.File // files reachable from main in the valid program (main first)
 	n     int         // fresh-name counter
 
-	valid    map[string]string // rendered before the edit
-	snapped  bool
-	post     []func(files map[string]string) // text-level part of the edit
-	info     editInfo
-	needGen  bool // the rule is enforced by the backend: the edited file must be generated
-	excluded map[string]bool
+	valid            map[string]string // rendered before the edit
+	validKnownReject bool              // the valid program has a shape of a listed C05 / C06 finding
+	snapped          bool
+	post             []func(files map[string]string) // text-level part of the edit
+	info             editInfo
+	needGen          bool // the rule is enforced by the backend: the edited file must be generated
+	excluded         map[string]bool
 }
 
 func (e *env) fresh(prefix string) string {
@@ -264,6 +271,8 @@ func (e *env) snap() {
 	}
 	e.snapped = true
 	e.valid = e.p.Texts(nil)
+	a, b := idl.KnownRejectShapes(e.p)
+	e.validKnownReject = a || b
 }
 
 func (e *env) where(f *idl.File) string {
@@ -1296,6 +1305,7 @@ func drawBackend(e *env) string {
 
 func genIDLCase(rt *rapid.T) (c04Case, *env) {
 	p := idl.Gen(rt, modelCfg())
+	idl.AddEnumNumberConsts(rt, p)
 	e := &env{t: rt, p: p, reach: reachable(p), excluded: map[string]bool{}}
 	bag := kindBag
 	for {
@@ -1327,7 +1337,7 @@ func genIDLCase(rt *rapid.T) (c04Case, *env) {
 	main := p.Files[0].Path
 	c := c04Case{Main: main, Valid: e.valid, Files: files, Edit: e.info,
 		ValidArgs: cmdline(backend, recurse, main), Args: cmdline(backend, recurse, main),
-		Expect: expectation{Rejected: true, ValidOutputs: outputsOf(e.reach, recurse, backend)}}
+		Expect: expectation{Rejected: true, ValidOutputs: outputsOf(e.reach, recurse, backend), ValidKnownReject: e.validKnownReject}}
 	return c, e
 }
 
@@ -1400,6 +1410,7 @@ func genCmdCase(rt *rapid.T) (c04Case, *env) {
 	cfg := modelCfg()
 	cfg.MaxFiles = 3
 	p := idl.Gen(rt, cfg)
+	idl.AddEnumNumberConsts(rt, p)
 	e := &env{t: rt, p: p, reach: reachable(p), excluded: map[string]bool{}}
 	e.snap()
 	recurse := e.coin("recurse")
@@ -1480,7 +1491,7 @@ func genCmdCase(rt *rapid.T) (c04Case, *env) {
 	}
 	e.info.Detail = detail
 	c := c04Case{Main: main, Valid: e.valid, Files: e.valid, Edit: e.info, ValidArgs: good, Args: args,
-		Expect: expectation{Rejected: true, ValidOutputs: outputsOf(e.reach, recurse, backend)}}
+		Expect: expectation{Rejected: true, ValidOutputs: outputsOf(e.reach, recurse, backend), ValidKnownReject: e.validKnownReject}}
 	return c, e
 }
 
